@@ -105,6 +105,10 @@ def httpLine (st : HttpRun) (lineNo : Nat) (line : String) : Except String (Http
              (if status == 403 && !changed then [] else [s!"PROPFAIL C01 http_denied_403 {tag} ep={ep} status={status} changed={changed}"])
            else []
          | _, _ => []) ++
+        -- C06 over HTTP: an accepted request leaves exactly the records the specification requires
+        -- (one for every disclosure, mutation attempt and denial; none for an unchanged conditional get)
+        (if isAccepted && ents != ments then
+          [s!"PROPFAIL C06 recorded {tag} ep={ep} status={status} code={showEntries ents} spec={showEntries ments}"] else []) ++
         -- C09 over HTTP + client: sentinel classes
         (if get "via" == "client" then
           let want := classOfClient (clientResult mresp)
@@ -146,6 +150,15 @@ def httpLine (st : HttpRun) (lineNo : Nat) (line : String) : Except String (Http
       let key := s!"{ep}:{status}:{if isAccepted then "acc" else "rej"}:{get "via"}:{if changed then "chg" else "same"}"
       .ok ({ st with cur := post, steps := st.steps + 1, fails := st.fails + nf, diverges := st.diverges + (out.length - nf),
                      cover := bump st.cover key }, out)
+  | "clientfault" :: rest =>
+    -- the client's first exchange was answered 502 before reaching the server: the call reports
+    -- an (opaque) error, makes no other request, and nothing changes
+    let fs := fields rest
+    let get := fun k => (lookup fs k).getD ""
+    let ok := get "cli" == "opaque" && get "exchanges" == "1" && get "changed" == "0"
+    if ok then .ok ({ st with steps := st.steps + 1, cover := bump st.cover s!"clientfault:{get "ep"}" }, []) else
+      .ok ({ st with steps := st.steps + 1, fails := st.fails + 1 },
+           [s!"PROPFAIL C09 client_sentinel hist={st.hist} line={lineNo} ep={get "ep"} kind={get "kind"} cli={get "cli"} exchanges={get "exchanges"} changed={get "changed"} (a gateway error must surface as an error)"])
   | _ =>
     if line.startsWith "#" || line.isEmpty then .ok (st, []) else .error s!"line {lineNo}: unknown line kind"
 
